@@ -88,6 +88,35 @@ def id_pure(chk, program):
         log_nodes = {id(x) for c in ast.walk(body) if isinstance(c, ast.Call) and is_logger(c) for x in ast.walk(c.func)}
         bad = sorted({n.id for n in ast.walk(body) if isinstance(n, ast.Name) and isinstance(n.ctx, ast.Load) and n.id not in params | local and n.id not in consts and not hasattr(builtins, n.id)
                       and id(n) not in log_nodes})
+        # names of the module (or imported from a sibling module) that are functions, classes, or values bound once and never modified anywhere
+        # in the package are not state: a table computed at import gives the same answer for the same arguments every time
+        from .. import absint as A_
+        menv = A_.ModuleEnv(program.mod(mod).tree)
+        def never_modified(name):
+            MUT = {'append', 'extend', 'update', 'pop', 'remove', 'clear', 'add', 'discard', 'insert', 'setdefault', 'popitem', 'sort', 'reverse', '__setitem__', '__delitem__'}
+            for m_ in program.modules.values():
+                stores_ = 0
+                for n_ in ast.walk(m_.tree):
+                    if isinstance(n_, ast.Name) and n_.id == name and isinstance(n_.ctx, (ast.Store, ast.Del)):
+                        stores_ += 1
+                    if isinstance(n_, (ast.Subscript, ast.Attribute)) and isinstance(n_.ctx, (ast.Store, ast.Del)) and isinstance(n_.value, ast.Name) and n_.value.id == name:
+                        return False
+                    if isinstance(n_, ast.Call) and isinstance(n_.func, ast.Attribute) and isinstance(n_.func.value, ast.Name) and n_.func.value.id == name and n_.func.attr in MUT:
+                        hit_ = menv.lookup(name)
+                        if not (hit_ is not None and hit_[0] == 'assign' and isinstance(hit_[1], ast.Call) and isinstance(hit_[1].func, ast.Name) and menv.lookup(hit_[1].func.id) is not None
+                                and menv.lookup(hit_[1].func.id)[0] == 'class'):
+                            return False       # (a method of that name on an object of a package class is that class's business, not a container edit)
+                if stores_ > 1:
+                    return False
+            return True
+        def harmless(name):
+            hit = menv.lookup(name)
+            if hit is None:
+                return False
+            if hit[0] in ('func', 'class', 'module'):
+                return True
+            return never_modified(name)
+        bad = [n_ for n_ in bad if not harmless(n_)]
         attrs = sorted({ast.unparse(n) for n in ast.walk(body) if isinstance(n, ast.Attribute) and isinstance(n.value, ast.Name) and n.value.id in ('self', 'cls', 'NMEA2000Encoder', 'NMEA2000Decoder')})
         stores = [n for n in ast.walk(body) if isinstance(n, (ast.Subscript, ast.Attribute)) and isinstance(n.ctx, (ast.Store, ast.Del))]
         ok = not bad and not attrs and not stores
@@ -301,7 +330,7 @@ def id_bytes_composition(chk, program):
         except (Ab.Unknown, Ab.RaiseSignal, AttributeError, IndexError) as u:
             chk.unknown('ID-BYTES', f"{en}/{dn}", f"not interpretable: {u}", DEC, 0)
             continue
-        chk.check(Wr.int_matches(r.header_arg, Wr.ID_BITS), 'ID-BYTES', f"{en}/{dn}::identifier-through-the-wire", file=DEC, line=program.fn('decoder', f"NMEA2000Decoder.{dn}").lineno, func=dn,
+        Wr.judge_int(chk, r.header_arg, Wr.ID_BITS, 'ID-BYTES', f"{en}/{dn}::identifier-through-the-wire", file=DEC, line=program.fn('decoder', f"NMEA2000Decoder.{dn}").lineno, func=dn,
                   expected='_extract_header receives id[0:29] bit for bit', found=repr(r.header_arg),
                   detail='writer and reader disagree on the position or the byte order of the 4 identifier bytes' if not Wr.int_matches(r.header_arg, Wr.ID_BITS) else '')
 
